@@ -25,23 +25,46 @@ func checkNumberLiteral(r *Run, ga *GA, pfx string) {
 		if f.Empty() || !f.Minus(signed).Empty() || f.Intersect(digits).Empty() {
 			continue
 		}
+		// the rule that hands out the numeral (it has an action); rules it is made of (the digits, the integer part) are
+		// visited from it
+		hasAction := false
+		rule.Walk(func(n *peg.Node, _ string) {
+			if n.Kind == peg.Action {
+				hasAction = true
+			}
+		})
+		if !hasAction {
+			continue
+		}
 		nRules++
 		missing := digits.Minus(f)
 		r.Check(pfx+".number-literal", "first-digit:"+rule.Name, ga.prog.pos(ga.tab.RulePos[rule]), missing.Empty(),
 			fmt.Sprintf("the number rule %s cannot begin with %s: a numeral beginning with that digit is not read as a number", rule.Name, missing))
-		rule.Walk(func(n *peg.Node, path string) {
-			if n.Kind != peg.Star && n.Kind != peg.Plus {
-				return
-			}
-			cs := ga.charsOf(n.Kids[0], map[string]bool{})
-			if cs.Empty() || !cs.Minus(digits).Empty() {
-				return
-			}
-			nReps++
-			miss := digits.Minus(cs)
-			r.Check(pfx+".number-literal", "repeated-digits:"+path, ga.posOf(n), miss.Empty(),
-				fmt.Sprintf("the repeated digits of a numeral exclude %s: a literal such as 1.05 or 100 is refused where 1.15 or 111 is read", miss))
-		})
+		seen := map[string]bool{rule.Name: true}
+		var visit func(rl *peg.Rule)
+		visit = func(rl *peg.Rule) {
+			rl.Walk(func(n *peg.Node, path string) {
+				if n.Kind == peg.RuleRef && !seen[n.Name] {
+					seen[n.Name] = true
+					if sub := ga.rules[n.Name]; sub != nil {
+						visit(sub)
+					}
+					return
+				}
+				if n.Kind != peg.Star && n.Kind != peg.Plus {
+					return
+				}
+				cs := ga.charsOf(n.Kids[0], map[string]bool{})
+				if cs.Empty() || !cs.Minus(digits).Empty() {
+					return
+				}
+				nReps++
+				miss := digits.Minus(cs)
+				r.Check(pfx+".number-literal", "repeated-digits:"+rl.Name+"/"+path, ga.posOf(n), miss.Empty(),
+					fmt.Sprintf("the repeated digits of a numeral exclude %s: a literal such as 1.05 or 100 is refused where 1.15 or 111 is read", miss))
+			})
+		}
+		visit(rule)
 	}
 	r.Check(pfx+".number-literal", "census", "grammar/grammar.go", nRules >= 1 && nReps >= 2,
 		fmt.Sprintf("info: %d number rules, %d digit repetitions examined (at least 1 and 2 expected: integer part and fraction)", nRules, nReps))
@@ -66,15 +89,7 @@ func checkPunctuationLayout(r *Run, ga *GA, layout string) {
 		}
 		return n.Val, true
 	}
-	isLayout := func(n *peg.Node) (ref, optional bool) {
-		if n.Kind == peg.RuleRef && n.Name == layout {
-			return true, false
-		}
-		if (n.Kind == peg.Opt || n.Kind == peg.Star) && len(n.Kids) == 1 && n.Kids[0].Kind == peg.RuleRef && n.Kids[0].Name == layout {
-			return true, true
-		}
-		return false, false
-	}
+	isLayout := func(n *peg.Node) (ref, optional bool) { return ga.layoutKind(n, layout, map[string]bool{}) }
 	n := 0
 	for _, rl := range ga.order {
 		rl.Walk(func(sq *peg.Node, path string) {
@@ -182,4 +197,32 @@ func checkOptionListReadOnly(r *Run, prog *Program, pfx string) {
 func isOptionSliceType(t types.Type) bool {
 	sl, ok := t.Underlying().(*types.Slice)
 	return ok && namedIs(sl.Elem(), grammarPath, "Option")
+}
+
+// layoutKind: the node is a reference to the layout rule — directly, under `?`/`*`/`+`, under a label, or through a rule
+// that is nothing but such a reference (`__ <- _?`) — and whether it may match nothing.
+func (ga *GA) layoutKind(n *peg.Node, layout string, seen map[string]bool) (isLayout, optional bool) {
+	switch n.Kind {
+	case peg.RuleRef:
+		if n.Name == layout {
+			return true, false
+		}
+		if seen[n.Name] {
+			return false, false
+		}
+		seen[n.Name] = true
+		if rr := ga.rules[n.Name]; rr != nil {
+			return ga.layoutKind(rr.Expr, layout, seen)
+		}
+	case peg.Opt, peg.Star:
+		if len(n.Kids) == 1 {
+			is, _ := ga.layoutKind(n.Kids[0], layout, seen)
+			return is, true
+		}
+	case peg.Plus, peg.Labeled:
+		if len(n.Kids) == 1 {
+			return ga.layoutKind(n.Kids[0], layout, seen)
+		}
+	}
+	return false, false
 }
